@@ -9,6 +9,10 @@ OPS = ["transpose", "flip", "reshape", "tile", "reduce_add", "add", "roll", "exp
 RENAME = {"mix": "add", "reduce_mix": "reduce_add"}
 
 
+DAG_EXPRS = ["softmax", "x_over_exp", "sum_over_exp", "exp_plus_exp", "sum_times_diff", "x_plus_x", "prod_plus_x", "exp_minus_expy", "yexp_minus_exp",
+             "sum_plus_sum", "gated", "gated_r", "flat_tree", "deep_shared", "deep_shared_r"]
+
+
 def convert(p):
     prog = []
     for s in p["prog"]:
@@ -118,6 +122,14 @@ def run(tier, seed):
     tc = tree_cases(n); n += len(tc)
     opslib.run_ops(ck, bins[0], tc, want="all", label="tree", nproc=4, describe=lambda c, k: f"{c['args']['f']}({c['args']['va']}(a), {c['args']['vb']}(b)) [{c['variant']}]: {k}")
     ck.extra["tree_cases"] = len(tc)
+    # compute graphs of expressions that are DAGs (shared leaves / shared sub-expressions): exact node and edge sets (ComputeGraph.tla)
+    ck.add_mc(vlib.tlc_model_check("MC_ComputeGraph", "MC_ComputeGraph" if quick else "MC_ComputeGraph_thorough", workers=8, timeout=2400))
+    gbin = vlib.build_driver("drv_graph", flags=("-O0",))
+    gc = []
+    for name in DAG_EXPRS:
+        n += 1; gc.append(dict(id=n, op="graph_dag", name=name, shapes=[]))
+    opslib.run_ops(ck, gbin, gc, want="all", label="graph_dag", nproc=4, describe=lambda c, k: f"compute graph of the expression '{c['name']}' (a leaf or sub-expression with several consumers): {k}")
+    ck.extra["dag_graph_cases"] = len(gc)
     # combinators: compositions over {negative, square, subtract, where, swap, dup, dig2, bury2} under every named operand split and both groupings
     names = ["u1", "u2", "b", "t", "swap", "dup", "dig2", "bury2"]
     stab = vlib.tlc_generate("GenStack", "GenStack_" + tier)
@@ -137,19 +149,22 @@ def run(tier, seed):
                "for each: the direct view, the composed functor applied to all operands at once, applied one operand at a time (currying), both groupings of the composition "
                "(f3*f2)*f1 / f3*(f2*f1) resp. (f2*f1)(a..) / f2(f1(a),..), the extracted composition applied to the extracted operands, the identity (addresses) and order of the extracted operands, "
                "and the compute graph (leaf count, unique ids, in-degree = listed operands, node accounting); all validated by TLC against the program's denotation; "
+               "compute graphs of 15 DAG expressions (a leaf or a sub-expression with several consumers, either operand order, nested sharing): exact node and edge sets against ComputeGraph.tla (terms recorded from the constructed views' own ids); "
                "binary ufuncs over two leaves with a view (identity / transpose / flatten) on either side, directly and through extraction; "
                "combinators: every composition of <= 2 (thorough 3) functors over {negative, square, subtract, where, swap, dup, dig2, bury2} with arity 1..5 (TLC export from StackMachine.tla), applied all at once, "
                "one operand at a time, (1, n-1), (n-1, 1), (n/2, rest), left and right grouping; the resulting stack (one array or a tuple) must be the stack machine's, interpreted on the operand values")
     ck.exhaustive = quick
     ck.extra.update(programs=len(progs), depth=maxd)
     ck.assumptions += ["conv/pooling/norm functors are not driven",
-                       "compute-graph checks are structural (node accounting, ids, in-degrees), composite views may contribute several function nodes"]
+                       "compute-graph checks of the chain programs are structural (node accounting, ids, in-degrees; composite views may contribute several function nodes), exact node / edge sets are checked for the DAG expression menu"]
     for p in progs[:3]: ck.sample(p)
     return ck.finish()
 
 
 def replay(rec):
     case = dict(rec["case"]); case["id"] = 1
+    if case.get("op") == "graph_dag":
+        return opslib.replay_ops(rec, "drv_graph", flags=("-O0",))
     if case.get("op") in ("tree", "chain3"):
         return opslib.replay_ops(rec, "drv_functional", flags=("-DMAXD=2", "-DFIRST_IDX=0", "-O0"))
     if case.get("op") == "fstack":
